@@ -350,16 +350,23 @@ def fam_statecheat(rnd: random.Random, which: int | None = None, ninputs: int = 
         reads = [[("PUSH", ECHO2), "EXTCODESIZE"], [("PUSH", ECHO), "EXTCODESIZE"], [("PUSH", 0x1400), "MLOAD"]]
     else:
         body += cheat(sig, [val])
-        reads = [[what], ["TIMESTAMP"], ["NUMBER"], ["CHAINID"]]
+        # a second block value set to something else, so that a mix-up between the fields of the block shows
+        other = rnd.choice([x for x in ("roll(uint256)", "warp(uint256)", "fee(uint256)", "chainId(uint256)") if x != sig])
+        body += cheat(other, [[("PUSH", rnd.choice([7, 1000, 2**40]))]])
+        reads = [[what], ["TIMESTAMP"], ["NUMBER"], ["CHAINID"], ["BASEFEE"]]
+    fork = rnd.random() < 0.6
+    if fork:
+        # what the cheatcode set stays set on both sides of a later symbolic branch (each path has its own copy of the state)
+        body += [("PUSH", 32), "CALLDATALOAD", ("PUSH", 1), "AND", ("PUSHL", "fk"), "JUMPI", ("PUSH", 0xF0), ("PUSH", 0x3E0), "MSTORE", ("LABEL", "fk")]
     for i, r in enumerate(reads):
         body += r + [("PUSH", 32 * i), "MSTORE"]
-    code = assemble(body + [("PUSH", 32 * len(reads)), ("PUSH", 0), "RETURN"])
-    prog = Prog(accounts={TARGET: code, ECHO: echo_runtime(), ECHO2: echo_runtime()}, calldata=[Sym("cd0", 256)],
-                balances={ECHO2: 3}, name=f"cheat-{sig}-{'sym' if sym else 'con'}")
+    code = assemble(body + [("PUSH", 0x400), ("PUSH", 0), "RETURN"])
+    prog = Prog(accounts={TARGET: code, ECHO: echo_runtime(), ECHO2: echo_runtime()}, calldata=[Sym("cd0", 256), Sym("cd1", 256)],
+                balances={ECHO2: 3}, name=f"cheat-{sig}-{'sym' if sym else 'con'}{'-fork' if fork else ''}")
     pool = [0, 1, 2**64, 2**128, 2**160 - 1, 12345]
     if what == "balance":
         pool = [0, 1, 2**64, 2**128, 12345]  # balances above 2^128 are outside halmos' documented model
-    return prog, [{"cd0": rnd.choice(pool)} for _ in range(ninputs)]
+    return prog, [{"cd0": rnd.choice(pool), "cd1": k % 2} for k in range(max(ninputs, 2))]
 
 
 FRESH = [
